@@ -83,9 +83,40 @@ def handleModel : Handler := fun a =>
   let n := a.nat "n"; let m := a.nat "m"
   fmtRun ((Store.run [] (parseOps (a.get "ops"))).map fun r => (r.2, r.1.map fun g => (g.obs n m).fmt))
 
+/-- the abstract state re-tabulated over the finite universe (nodes `< n`, edge types `< m`, attribute
+    keys `akeys`): extensionally the same state on the universe, but stored as tables, so that running
+    the specification costs O(universe) per step instead of O(history length) per lookup.  Only the
+    driver uses this; histories sent to the driver mention nothing outside the universe. -/
+def tabRow (a : AAttr) : Array (Option Nat) := ((List.range 2).map a).toArray
+
+def tabAG (n m : Nat) (a : AG) : AG :=
+  let nodeT := ((List.range n).map a.node).toArray
+  let kindT := ((List.range m).map a.kind).toArray
+  let edgeT := ((List.range (m * n * n)).map fun i => a.edge (i / (n * n)) (i / n % n) (i % n)).toArray
+  let nattrT := ((List.range n).map fun v => tabRow (a.nattr v)).toArray
+  let eattrT := ((List.range (m * n * n)).map fun i => tabRow (a.eattr (i / (n * n)) (i / n % n) (i % n))).toArray
+  let gT := tabRow a.gattr
+  { admg := a.admg
+    node := fun v => nodeT.getD v false
+    kind := fun t => kindT.getD t none
+    edge := fun t u v => if t < m && u < n && v < n then edgeT.getD (t * n * n + u * n + v) false else false
+    nattr := fun v k => (nattrT.getD v #[]).getD k none
+    eattr := fun t u v k =>
+      if t < m && u < n && v < n then (eattrT.getD (t * n * n + u * n + v) #[]).getD k none else none
+    gattr := fun k => gT.getD k none }
+
+def specRun (n m : Nat) (s : AStore) : List Op → List (AStore × Bool)
+  | [] => []
+  | op :: ops => let r := s.step op; let s' := r.1.map (tabAG n m); (s', r.2) :: specRun n m s' ops
+
 def handleSpec : Handler := fun a =>
+  let n := a.nat "n"; let m := a.nat "m"
+  fmtRun ((specRun n m [] (parseOps (a.get "ops"))).map fun r => (r.2, r.1.map fun g => (g.obs n m).fmt))
+
+/-- the un-tabulated run (`AStore.run` literally), for cross-checking the tabulation -/
+def handleSpecRaw : Handler := fun a =>
   let n := a.nat "n"; let m := a.nat "m"
   fmtRun ((AStore.run [] (parseOps (a.get "ops"))).map fun r => (r.2, r.1.map fun g => (g.obs n m).fmt))
 
-def handlers : List (String × Handler) := [("c02m", handleModel), ("c02s", handleSpec)]
+def handlers : List (String × Handler) := [("c02m", handleModel), ("c02s", handleSpec), ("c02sraw", handleSpecRaw)]
 end C02
